@@ -16,6 +16,7 @@ import (
 	"bytes"
 	"fmt"
 	"net/netip"
+	"sort"
 	"strings"
 	"testing"
 	"time"
@@ -244,6 +245,21 @@ func run(e *core.Env) {
 	}
 
 	order := tp.Perm(len(captured))
+	if tp.Chance(1, 3) {
+		// Far origins first: V then meets several relays for the first time inside one
+		// announcement, before it has seen any of them announce itself.
+		depthOf := func(data []byte) int {
+			d := 0
+			if f, err := mesh.ParseCrossing(parser, data); err == nil {
+				ls, _ := parseChain(f.AppendixData())
+				d = len(ls)
+				f.ReturnToPool()
+			}
+			return d
+		}
+		sort.SliceStable(order, func(a, b int) bool { return depthOf(captured[order[a]]) > depthOf(captured[order[b]]) })
+		e.Probe("deep_chains_delivered_first")
+	}
 	for _, ci := range order {
 		orig := captured[ci]
 		f, err := mesh.ParseCrossing(parser, orig)
@@ -272,7 +288,51 @@ func run(e *core.Env) {
 		// ---- manipulations (all must be rejected) ----
 		k := 3 + tp.Intn(6)
 		for t := 0; t < k; t++ {
-			switch tp.Intn(13) {
+			switch min(tp.Intn(17), 13) {
+			case 13: // colluding relays: the record at level j keeps naming its router, but another mesh
+				// router signed it; every level outside it is re-signed by its real owner
+				if depth < 2 {
+					continue
+				}
+				j := 1 + tp.Intn(depth-1)
+				cp := append([]layer(nil), ls...)
+				named := cp[j].at.Router.IP
+				keyOfSigner, bump := tp.Chance(1, 2), uint16(0)
+				if tp.Chance(1, 2) {
+					bump = uint16(1 + tp.Intn(20))
+				}
+				if e.Trace {
+					holder := "none"
+					if ss := V.State.GetSession(named); ss != nil {
+						holder = "unknown-key"
+						for _, z := range ms.Nodes {
+							if bytes.Equal(ss.Address().PublicKey, z.ID.PublicKey) {
+								holder = z.Name
+							}
+						}
+					}
+					e.Logf("case13 depth=%d j=%d named=%s V holds for it the key of %s", depth, j, ms.Nodes[byIP[named]].Name, holder)
+				}
+				// every router of the mesh in turn: which key V may wrongly hold for the named
+				// router depends on what V has seen before
+				for _, z := range ms.Nodes {
+					if z.IP == named || z == V {
+						continue
+					}
+					fp := append([]layer(nil), cp...)
+					if keyOfSigner {
+						forged := fp[j].at.Router
+						forged.PublicKey = z.ID.PublicKey
+						fp[j].at.Router = forged
+					}
+					fp[j].at.Delay += bump
+					rs := map[int]*m.Address{j: z.ID}
+					for o := 0; o < j; o++ {
+						rs[o] = ms.Nodes[byIP[fp[o].at.Router.IP]].ID
+					}
+					e.Probe("record_signed_by_another_mesh_router")
+					reject(fmt.Sprintf("record at level %d signed by another router of the mesh", j), lPV, withAppendix(parser, orig, encodeChain(fp, ctx, rs)), depth)
+				}
 			case 12: // the complete, untouched hop-record chain of ANOTHER announcement of the same origin
 				var donors [][]byte
 				for cj, oc := range captured {
